@@ -49,6 +49,19 @@ class FutExc(Exception):
     pass
 
 
+class NeedsArg(Exception):
+    """an exception *class* given where an instance is expected; it cannot even be instantiated
+    without an argument"""
+
+    def __init__(self, code):
+        super().__init__(code)
+
+
+class NeedsArgCancel(asyncio.CancelledError):
+    def __init__(self, code):
+        super().__init__(code)
+
+
 class _Pause(BaseException):
     """Raised by the Handle._run wrapper *after* a handle completed: unwinds run_forever the way a
     KeyboardInterrupt would, leaving the ready queue and all tasks in place."""
@@ -470,6 +483,21 @@ class World:
         elif op == "cscb":
             loop.call_soon(_noop)
             self.emit("cscb", "ok")
+        elif op == "throwcls":
+            # task_throw with something that is not an exception instance (a class whose constructor
+            # needs an argument): whatever the call does - TypeError on the unchanged code - a call that
+            # raises must leave everything as it was.  Not an event of the model: nothing may happen.
+            if not self.tasks:
+                return
+            t = a[1] % len(self.tasks)
+            if self.kinds[t] != "p":
+                return
+            self.do_throw_class(t, NeedsArgCancel if a[2] else NeedsArg)
+        elif op == "iterobs":
+            # observe while an iteration over the ready queue is in progress (k items consumed), then
+            # again after the iterator was closed.  Not an event of the model: looking changes nothing.
+            self.iter_observe(a[1], a[2])
+            return
         elif op == "evset":          # untraced scenarios only
             self.events[a[1] % 2].set()
             return
@@ -485,6 +513,49 @@ class World:
             self.do_throw(t, bool(a[2]), who)
         else:
             raise HarnessBug(f"unknown action {a}")
+        if self.mode != "drain":
+            self.observe()
+
+    def do_throw_class(self, t, cls):
+        task = self.tasks[t]
+        pre = self._quiet_obs() if self.mode != "drain" else None
+        try:
+            self.intr.task_throw(task, cls)
+        except BaseException as e:       # noqa: BLE001 - any refusal
+            self.tags.add("throw-of-a-class-refused-" + type(e).__name__)
+            if pre is not None:
+                post = self._quiet_obs()
+                if post != pre:
+                    self.problem("task_throw refused but the state changed", f"{pre} -> {post}")
+        else:
+            # accepted: an exception the harness cannot follow is on its way
+            self.tags.add("throw-of-a-class-accepted")
+
+    def iter_observe(self, k, which):
+        loop = self.loop
+        try:
+            if which:
+                it = iter(self.ext.ready_tasks(loop=loop))
+            else:
+                it = iter(self.ext.get_ready_queue(loop))
+            n = 0
+            for _ in range(k):
+                try:
+                    next(it)
+                    n += 1
+                except StopIteration:
+                    break
+        except Exception as e:           # noqa: BLE001
+            self.problem("ready_find-raised", f"iterating the ready queue raised {type(e).__name__}")
+            return
+        if n:
+            self.tags.add("obs-during-ready-queue-iteration")
+        if self.mode != "drain":
+            self.observe()               # the iterator is suspended after n items
+        close = getattr(it, "close", None)
+        if close is not None:
+            close()
+        del it
         if self.mode != "drain":
             self.observe()
 
@@ -698,6 +769,13 @@ class World:
             if self.kinds[t] != "p":
                 return
             await self.do_interrupt(wid, t, bool(op[2]))
+        elif k == "icls":
+            if not self.tasks:
+                return
+            t = op[1] % len(self.tasks)
+            if self.kinds[t] != "p":
+                return
+            await self.do_interrupt_class(wid, t, NeedsArgCancel if op[2] else NeedsArg)
         elif k == "a":
             self.do_action(op[1], who=wid)
         elif k in ("ev", "qget", "wsh", "lock", "gat"):
@@ -769,6 +847,28 @@ class World:
             if th["id"] == e.id and th["ok"] and not th["delivered"] and not th["superseded"] \
                     and not self.never_started_delivery(th):
                 self.problem("task_interrupt returned before the exception was raised in the target", f"i{e.id}")
+
+    async def do_interrupt_class(self, wid, t, cls):
+        task = self.tasks[t]
+        pre = self._quiet_obs() if self.mode != "drain" else None
+        n0 = self.handles_run
+        self.marker = ("none",)          # if it is accepted after all, the caller suspends in sleep(0)
+        try:
+            await self.intr.task_interrupt(task, cls)
+        except (IntrPlain, IntrCancel, FutExc):
+            raise
+        except BaseException as e:       # noqa: BLE001
+            if self.handles_run != n0:
+                raise                     # delivered to us later, not a refusal
+            self.marker = None
+            self.tags.add("interrupt-with-a-class-refused-" + type(e).__name__)
+            if pre is not None:
+                post = self._quiet_obs()
+                if post != pre:
+                    self.problem("task_throw refused but the state changed", f"{pre} -> {post}")
+                self.observe()
+            return
+        self.tags.add("throw-of-a-class-accepted")
 
     def never_started_delivery(self, th):
         return th.get("outcome_delivered", False)
